@@ -43,6 +43,17 @@ func Scenarios(thorough bool) map[string]*Scenario {
 	m["Q22"] = &Scenario{ID: "Q22", Kind: "CloneSet", Style: "partition", Replicas: 2, Traffic: "custom", TRCR: true, Grace: 1,
 		Steps: []StepSpec{{Replicas: "1"}, {Replicas: "2"}}}
 	// CloneSet partition + Gateway API HTTPRoute
+	// Gateway API with a header-match step (the HTTPRoute gets generated rules that must be re-derived, not
+	// stacked, on every re-application)
+	m["Q03h"] = &Scenario{ID: "Q03h", Kind: "CloneSet", Style: "partition", Replicas: 3, Traffic: "gateway", Grace: 1,
+		Steps: []StepSpec{{Replicas: "1", Header: "canary"}, {Replicas: "2", Traffic: "50%"}, {Replicas: "100%"}}}
+	// CloneSet blue-green + Ingress carrying the rollback-in-batch annotation (which must not apply: the policy is
+	// only for rollouts without traffic routing)
+	m["Q09b"] = &Scenario{ID: "Q09b", Kind: "CloneSet", Style: "bluegreen", Replicas: 2, Traffic: "ingress", Grace: 1, RollbackInBatch: true,
+		Steps: []StepSpec{{Replicas: "100%", Traffic: "0%"}, {Replicas: "100%", Traffic: "100%"}}}
+	// a workload of more than 100 replicas whose last step is the absolute count 100 (not "100%": it needs approval)
+	m["Q01L"] = &Scenario{ID: "Q01L", Kind: "CloneSet", Style: "partition", Replicas: 103,
+		Steps: []StepSpec{{Replicas: "100"}}}
 	m["Q03"] = &Scenario{ID: "Q03", Kind: "CloneSet", Style: "partition", Replicas: 3, Traffic: "gateway", Grace: 1,
 		Steps: []StepSpec{{Replicas: "1", Traffic: "20%"}, {Replicas: "100%"}}}
 	// a stale canary Service left behind by an earlier, interrupted rollout
@@ -160,9 +171,9 @@ func plans0(thorough bool) map[string]PropertyPlan {
 		u = 2
 	}
 	return map[string]PropertyPlan{
-		"C01": {Scenarios: []string{"Q01", "Q01b", "Q01c", "Q05", "Q07", "Q08", "Q09", "Q10", "Q11"}, Actions: []string{"scaleUp", "scaleDown", "editPlanInts", "editPlanLow", "editPlanMore", "jump(1)", "jump(3)", "pause", "resume"}, MaxUser: u,
+		"C01": {Scenarios: []string{"Q01", "Q01b", "Q01c", "Q05", "Q07", "Q08", "Q09", "Q10", "Q11"}, Actions: []string{"scaleUp", "scaleDown", "editPlanInts", "editPlanLow", "editPlanMid", "editPlanMore", "jump(1)", "jump(3)", "pause", "resume"}, MaxUser: u,
 			FreeQueues: true, StateCap: capQ, Monitors: func(w *World, sc *Scenario) []Monitor { return []Monitor{ExposureMonitor{}} }},
-		"C02": {Scenarios: []string{"Q01", "Q01b", "Q04", "Q05", "Q08", "Q09"}, Actions: []string{"pause", "resume", "editPlanMore", "rollback"}, MaxUser: u, Disturbances: []string{"crash", "midcrash"}, MaxDisturb: 1,
+		"C02": {Scenarios: []string{"Q01", "Q01b", "Q01L", "Q04", "Q05", "Q08", "Q09"}, Actions: []string{"pause", "resume", "editPlanMore", "rollback"}, MaxUser: u, Disturbances: []string{"crash", "midcrash"}, MaxDisturb: 1,
 			FreeQueues: true, StateCap: capQ, Monitors: func(w *World, sc *Scenario) []Monitor { return []Monitor{StepMonitor{}} }},
 		"C11": {Scenarios: []string{"Q01", "Q01b", "Q01r", "Q05", "Q05r", "Q07", "Q08", "Q09", "Q10", "Q11"}, Actions: []string{"scaleUp", "scaleDown", "editPlanMore", "degrade", "jump(1)"}, MaxUser: u,
 			FreeQueues: true, StateCap: capQ, Monitors: func(w *World, sc *Scenario) []Monitor { return []Monitor{BatchStatusMonitor{}} }},
@@ -170,7 +181,7 @@ func plans0(thorough bool) map[string]PropertyPlan {
 			FreeQueues: true, StateCap: capQ, Monitors: func(w *World, sc *Scenario) []Monitor { return []Monitor{TrafficOrderMonitor{}} }},
 		"C04": {Scenarios: []string{"Q02", "Q02c", "Q02h", "Q02s", "Q03", "Q05", "Q05p", "Q08", "Q09", "Q10t", "Q30"}, Actions: []string{"rollback", "release3", "disable", "deleteRollout", "jump(2)"}, MaxUser: u, Disturbances: []string{"crash"}, MaxDisturb: 1,
 			FreeQueues: true, StateCap: capQ, Monitors: func(w *World, sc *Scenario) []Monitor { return []Monitor{VoidMonitor{}} }},
-		"C10": {Scenarios: []string{"Q02", "Q02h", "Q05", "Q08", "Q09", "Q10t"}, Actions: []string{"rollback", "release3", "jump(1)"}, NoCostActions: []string{"jump(1)"}, MaxUser: 1, Disturbances: []string{"crash", "midcrash"}, MaxDisturb: 1,
+		"C10": {Scenarios: []string{"Q02", "Q02h", "Q05", "Q08", "Q09", "Q09b", "Q10t"}, Actions: []string{"rollback", "release3", "jump(1)"}, NoCostActions: []string{"jump(1)"}, MaxUser: 1, Disturbances: []string{"crash", "midcrash"}, MaxDisturb: 1,
 			FreeQueues: true, StateCap: capQ, Monitors: func(w *World, sc *Scenario) []Monitor { return []Monitor{RollbackOrderMonitor{}} }},
 		"C05": {Scenarios: []string{"Q02", "Q01b", "Q03", "Q05", "Q07", "Q07r", "Q08", "Q09", "Q10", "Q10t", "Q11", "Q31"}, Actions: []string{"rollback", "release3", "disable", "deleteRollout", "editPlanMore", "deleteCanary", "deleteVS"}, MaxUser: u,
 			FreeQueues: true, StateCap: capQ, Monitors: func(w *World, sc *Scenario) []Monitor { return []Monitor{&ExitMonitor{Base: CaptureBaseline(w, sc)}} }},
@@ -178,7 +189,7 @@ func plans0(thorough bool) map[string]PropertyPlan {
 			FreeQueues: true, StateCap: capQ, Monitors: func(w *World, sc *Scenario) []Monitor {
 				return []Monitor{FinalizerMonitor{Base: CaptureBaseline(w, sc)}}
 			}},
-		"C07": {Scenarios: []string{"Q01", "Q01b", "Q01c", "Q01r", "Q02", "Q03", "Q05", "Q05g", "Q05r", "Q07", "Q07m", "Q08", "Q09", "Q10", "Q10t", "Q11", "Q11t"}, Actions: nil, MaxUser: 0,
+		"C07": {Scenarios: []string{"Q01", "Q01b", "Q01c", "Q01r", "Q02", "Q03", "Q03h", "Q05", "Q05g", "Q05r", "Q07", "Q07m", "Q08", "Q09", "Q10", "Q10t", "Q11", "Q11t"}, Actions: nil, MaxUser: 0,
 			FreeQueues: false, Liveness: true, StateCap: capQ, Monitors: func(w *World, sc *Scenario) []Monitor { return []Monitor{PanicMonitor{}} }},
 		"C06": {Scenarios: c06Scenarios, Actions: nil, MaxUser: 0, Disturbances: []string{"crash", "midcrash", "error", "conflict"}, MaxDisturb: 1,
 			FreeQueues: true, StateCap: capQ, Relabel: true, LiveScenarios: []string{"Q01b", "Q02", "Q05", "Q08", "Q09", "Q10", "Q11", "Q31"},
